@@ -17,14 +17,14 @@
 EXTENDS SybilRules
 
 CONSTANTS Peers, PfxA, NSub,
-          BThr, Win, PThr, SimPm, AsymThrPm, Age, MinObs,      \* the configuration
+          BThr, Win, PThr, SimPm, AsymThrPm, Age, AgeIsMax, MinObs,   \* the configuration (AgeIsMax: max_record_age = Duration::MAX)
           MaxT, MaxOps, OpSet,                               \* bounds; the operations that are explored
           Lats, Sizes, Claims, Measures                      \* values for record_response / claimed / measured bandwidth
 
 VARIABLES st, now, prev, last, nops, hist, ever
 vars == <<st, now, prev, last, nops, hist, ever>>
 
-C == [bthr |-> BThr, win |-> Win, pthr |-> PThr, sim |-> SimPm, asym |-> AsymThrPm, age |-> Age, minobs |-> MinObs]
+C == [bthr |-> BThr, win |-> Win, pthr |-> PThr, sim |-> SimPm, asym |-> AsymThrPm, age |-> IF AgeIsMax THEN -1 ELSE Age, minobs |-> MinObs]
 Subs == {<<i>> : i \in 1..NSub}
 PfxOf(p) == IF p \in PfxA THEN 1 ELSE 2
 
@@ -49,7 +49,7 @@ Next ==
         \/ /\ "analyze" \in OpSet /\ \E evs \in EvidenceOrders(st, C, now) : Do(Analyze(st, evs), "analyze", 0, FALSE, hist) /\ UNCHANGED ever
         \/ /\ "clear" \in OpSet /\ Do(Clear(st), "clear", 0, FALSE, hist) /\ UNCHANGED ever
         \/ /\ "cleanup" \in OpSet /\ LET x == Cleanup(st, C, now, now) IN
-                                     \E s \in x.S : Do(s, "cleanup", 0, x.panic, IF Age < 0 THEN hist ELSE {h \in hist : h.t > now - Age}) /\ UNCHANGED ever
+                                     \E s \in x.S : Do(s, "cleanup", 0, x.panic, IF AgeIsMax THEN hist ELSE {h \in hist : h.t > now - Age}) /\ UNCHANGED ever
 Spec == Init /\ [][Next]_vars
 
 (* ---- the queries in the current state ---- *)
@@ -115,7 +115,7 @@ ClearEmpties == last.op = "clear" => /\ GroupCount(st) = 0 /\ \A p \in Peers : ~
                                      /\ Overall(st) = 0 /\ st = [prev.st EXCEPT !.groups = <<>>]
 (* cleanup forgets exactly the join records that are at least max_record_age old, and nothing else ever forgets them but a departure *)
 Recs(s) == UNION {{[p |-> s.joins[k][i].p, sub |-> k, t |-> s.joins[k][i].lo] : i \in 1..Len(s.joins[k])} : k \in DOMAIN s.joins}
-CleanupOnlyOld == /\ last.op = "cleanup" => /\ Recs(st) = {r \in Recs(prev.st) : Age < 0 \/ now - r.t < Age}
+CleanupOnlyOld == /\ last.op = "cleanup" => /\ Recs(st) = {r \in Recs(prev.st) : AgeIsMax \/ now - r.t < Age}
                                             /\ [st EXCEPT !.joins = prev.st.joins] = prev.st
                   /\ last.op \notin {"cleanup", "join", "leave"} => st.joins = prev.st.joins
 (* what the detector remembers is what the design remembers and lies within one window of the subnet's latest join *)
